@@ -933,6 +933,24 @@ def norm_blocks(seq):
     return [[m[0], sorted(m[1])] if m[0] == 'primes' else m for m in out]
 
 
+def unsorted_forms(rng, occ):
+    """unsorted / permuted presentations of a set of occupied indices: descending list, shuffled tuple,
+    'high half first' list (an index >= N/2 before one < N/2 whenever both exist)"""
+    if len(occ) < 2:
+        return []
+    forms = [list(occ)[::-1]]
+    sh = list(occ)
+    rng.shuffle(sh)
+    forms.append(tuple(sh))
+    hi_first = sorted(occ, key=lambda i: (-i % 2, -i))
+    forms.append(hi_first)
+    out = []
+    for f in forms:
+        if list(f) != sorted(f) and all(list(f) != list(g) or type(f) is not type(g) for g in out):
+            out.append(f)
+    return out
+
+
 def primitives_stream(ctx, lad):
     import cirq
     of = ctx.of
@@ -987,7 +1005,9 @@ def primitives_stream(ctx, lad):
                 newvac = evec[:, 0]
                 for init in states:
                     occ = [j for j in range(n) if (init >> (n - 1 - j)) & 1]
-                    for ini in (init, occ):
+                    for ini in [init, occ] + unsorted_forms(rng, occ):
+                        if not isinstance(ini, int) and list(ini) != sorted(ini):
+                            st.count('initial_state:unsorted')
                         try:
                             U2 = circuit_unitary(cirq, of.bogoliubov_transform(qubits, W.copy(), initial_state=ini),
                                                  qubits)
@@ -1021,14 +1041,14 @@ def primitives_stream(ctx, lad):
                     ref = sum(Q[j, k] * lad.get(n, k, 1) for k in range(n)) @ ref
                 for init in (range(2 ** n) if n <= 3 else rng.sample(range(2 ** n), 4)):
                     occ = [j for j in range(n) if (init >> (n - 1 - j)) & 1]
-                    ini = rng.choice([init, occ, set(occ)])
-                    case = {'fn': 'prepare_slater_determinant', 'n': n, 'eta': eta, 'initial_state': ini, 'Q': Q}
-                    st.case(case)
-                    ok, U = safe(st, 'prepare_slater_determinant', case, lambda: circuit_unitary(
-                        cirq, of.prepare_slater_determinant(qubits, Q.copy(), initial_state=ini), qubits))
-                    if ok:
-                        check(case, 'state: prepare_slater_determinant = b^_1..b^_eta|vac> up to phase',
-                              phase_diff(U[:, init], ref))
+                    for ini in [rng.choice([init, occ, set(occ)])] + unsorted_forms(rng, occ)[:2]:
+                        case = {'fn': 'prepare_slater_determinant', 'n': n, 'eta': eta, 'initial_state': ini, 'Q': Q}
+                        st.case(case)
+                        ok, U = safe(st, 'prepare_slater_determinant', case, lambda: circuit_unitary(
+                            cirq, of.prepare_slater_determinant(qubits, Q.copy(), initial_state=ini), qubits))
+                        if ok:
+                            check(case, 'state: prepare_slater_determinant = b^_1..b^_eta|vac> up to phase',
+                                  phase_diff(U[:, init], ref))
             # prepare_gaussian_state
             if n <= 4:
                 for cons in (True, False, 'partial-pairing'):
@@ -1061,16 +1081,25 @@ def primitives_stream(ctx, lad):
                     for occ_orb in (subsets if n <= 3 else rng.sample(subsets, 5)):
                         E = sum(energies[i] for i in occ_orb) + const
                         init = rng.randrange(2 ** n)
-                        case = {'fn': 'prepare_gaussian_state', 'n': n, 'conserving': cons,
-                                'occupied_orbitals': list(occ_orb), 'initial_state': init, 'H': repr(H)[:300]}
-                        st.case(case)
-                        ok, U = safe(st, 'prepare_gaussian_state', case, lambda: circuit_unitary(
-                            cirq, of.prepare_gaussian_state(qubits, H, occupied_orbitals=list(occ_orb),
-                                                            initial_state=init), qubits))
-                        if ok:
-                            v = U[:, init]
-                            check(case, 'state: prepare_gaussian_state is the eigenstate with the orbital-energy sum',
-                                  max(maxdiff(Hm @ v, E * v), abs(np.linalg.norm(v) - 1)), 1e-8, extra=sg)
+                        iocc = [j for j in range(n) if (init >> (n - 1 - j)) & 1]
+                        variants = [(list(occ_orb), init)]
+                        for f in unsorted_forms(rng, list(occ_orb))[:1]:
+                            variants.append((list(f), init))   # lists only (tuples are rejected by the clean tree)
+                        for f in unsorted_forms(rng, iocc)[:1]:
+                            variants.append((list(occ_orb), f))
+                        for oo, ini in variants:
+                            case = {'fn': 'prepare_gaussian_state', 'n': n, 'conserving': cons,
+                                    'occupied_orbitals': oo, 'initial_state': ini, 'H': repr(H)[:300]}
+                            st.case(case)
+                            if list(oo) != sorted(oo) or (not isinstance(ini, int) and list(ini) != sorted(ini)):
+                                st.count('gaussian:unsorted-sequence')
+                            ok, U = safe(st, 'prepare_gaussian_state', case, lambda: circuit_unitary(
+                                cirq, of.prepare_gaussian_state(qubits, H, occupied_orbitals=oo,
+                                                                initial_state=ini), qubits))
+                            if ok:
+                                v = U[:, init]
+                                check(case, 'state: prepare_gaussian_state is the eigenstate with the orbital-energy sum',
+                                      max(maxdiff(Hm @ v, E * v), abs(np.linalg.norm(v) - 1)), 1e-8, extra=sg)
                     case = {'fn': 'prepare_gaussian_state', 'n': n, 'conserving': cons, 'default': True}
                     ok, U = safe(st, 'prepare_gaussian_state(default)', case, lambda: circuit_unitary(
                         cirq, of.prepare_gaussian_state(qubits, H), qubits))
@@ -1078,6 +1107,50 @@ def primitives_stream(ctx, lad):
                         v = U[:, 0]
                         check(case, 'state: prepare_gaussian_state default is the ground state',
                               abs((v.conj() @ Hm @ v).real - np.linalg.eigvalsh(Hm)[0]), 1e-8, extra=sg)
+    # prepare_gaussian_state with a spin degree of freedom: occupied_orbitals = (up list, down list), different blocks
+    for n in ([4] if not (ctx.tier == 'thorough' or ctx.drift) else [2, 4, 6]):
+        h = n // 2
+        qubits = cirq.LineQubit.range(n)
+        lad.prefetch([n])
+        for rep in range(budget(ctx.tier, 2, 5)):
+            M = np.zeros((n, n), dtype=complex)
+            for blk in (0, 1):
+                A = rs.randn(h, h) + 1j * rs.randn(h, h)
+                M[blk * h:(blk + 1) * h, blk * h:(blk + 1) * h] = (A + A.conj().T) / 2
+            const = rng.choice([0.0, 0.5])
+            H = of.QuadraticHamiltonian(M, constant=const)
+            Hm = const * np.eye(2 ** n, dtype=complex)
+            for p in range(n):
+                for q in range(n):
+                    if M[p, q] != 0:
+                        Hm = Hm + M[p, q] * lad.get(n, p, 1) @ lad.get(n, q, 0)
+            e_up = np.linalg.eigvalsh(M[:h, :h])
+            e_dn = np.linalg.eigvalsh(M[h:, h:])
+            nup, ndn = rng.randint(0, h), rng.randint(0, h)
+            up, dn = sorted(rng.sample(range(h), nup)), sorted(rng.sample(range(h), ndn))
+            E = sum(e_up[i] for i in up) + sum(e_dn[i] for i in dn) + const
+            init = rng.randrange(2 ** n)
+            iocc = [j for j in range(n) if (init >> (n - 1 - j)) & 1]
+            forms = [((up, dn), init), ((up, dn), iocc)]
+            if len(up) >= 2 or len(dn) >= 2:
+                forms.append(((up[::-1], dn[::-1]), init))   # lists: tuples of orbital indices are rejected by numpy indexing
+            for f in unsorted_forms(rng, iocc):
+                forms.append(((up, dn), f))
+            if not up and not dn:
+                forms = []   # an empty first list is read as "generic"; nothing spin specific to check
+            for oo, ini in forms:
+                if not oo[0]:
+                    continue   # `not occupied_orbitals[0]`-style dispatch needs a non-empty first list
+                case = {'fn': 'prepare_gaussian_state(spin)', 'n': n, 'occupied_orbitals': [list(oo[0]), list(oo[1])],
+                        'initial_state': ini, 'M': M}
+                st.case(case)
+                st.count('gaussian:spin-symmetric')
+                ok, U = safe(st, 'prepare_gaussian_state(spin)', case, lambda: circuit_unitary(
+                    cirq, of.prepare_gaussian_state(qubits, H, occupied_orbitals=oo, initial_state=ini), qubits))
+                if ok:
+                    v = U[:, init]
+                    check(case, 'state: prepare_gaussian_state (spin sectors) is the eigenstate with the sector energy sum',
+                          max(maxdiff(Hm @ v, E * v), abs(np.linalg.norm(v) - 1)), 1e-8)
     # ffft
     for n in range(1, (8 if (ctx.tier == 'thorough' or ctx.drift) else 6) + 1):
         qubits = cirq.LineQubit.range(n)
